@@ -2,7 +2,7 @@
    to_json(), the state of the object that from_json gave back, Config.names()/[]/in results) and these
    functions say whether the models in Serial.v / ConfigKey.v predict exactly that.  Evaluated by vm_compute. *)
 From Coq Require Import ZArith NArith List Bool String.
-From V Require Import Model.Serial Model.ConfigKey.
+From V Require Import Model.Serial Model.SerialX Model.ConfigKey.
 Import ListNotations.
 
 (* ---------- Serial ---------- *)
@@ -39,35 +39,87 @@ Definition state_ok (c : coord) (o : obs_state) : bool :=
     Bool.eqb (has_full c) f && Bool.eqb (has_records c) r
     && forallb (fun p => N.eqb (record_state c (fst p)) (snd p)) st
   end.
-Definition chk_coord (c : uctx * bool * coord * jv * obs_state) : bool :=
-  match c with (u, minimal, x, wire, o) =>
+(* ---- what __reduce__ handed to pickle (observed) against reduce_*_deep; mappings compared as mappings ---- *)
+Definition fval_eqb (a b : fval) : bool :=
+  match a, b with
+  | FNull, FNull => true
+  | FBool x, FBool y => Bool.eqb x y
+  | FInt x, FInt y | FFlt x, FFlt y => Z.eqb x y
+  | FStr x, FStr y | FRegion x, FRegion y | FHash x, FHash y => String.eqb x y
+  | FTs x, FTs y => zz_eqb x y
+  | _, _ => false
+  end.
+Definition amap_eqb {A} (f : A -> A -> bool) (a b : list (string * A)) : bool :=
+  Nat.eqb (List.length a) (List.length b)
+  && forallb (fun p => match aget (fst p) b with Some v => f (snd p) v | None => false end) a.
+Definition opt_eqb {A} (f : A -> A -> bool) (a b : option A) : bool :=
+  match a, b with Some x, Some y => f x y | None, None => true | _, _ => false end.
+Definition pkrec_eqb (a b : pk_rec) : bool := String.eqb (fst a) (fst b) && amap_eqb fval_eqb (snd a) (snd b).
+Definition cls_eqb (a b : coord_cls) : bool :=
+  match a, b with ClsRequired, ClsRequired | ClsFull, ClsFull | ClsExpanded, ClsExpanded => true | _, _ => false end.
+Fixpoint dvall_eqb (a b : list dval) : bool :=
+  match a, b with [] , [] => true | x :: a', y :: b' => dval_eqb x y && dvall_eqb a' b' | _, _ => false end.
+Definition pkc_eqb (a b : pk_coord) : bool :=
+  match a, b with (c1, n1, v1, r1), (c2, n2, v2, r2) =>
+    cls_eqb c1 c2 && slist_eqb n1 n2 && dvall_eqb v1 v2 && opt_eqb (amap_eqb (opt_eqb pkrec_eqb)) r1 r2
+  end.
+Definition pkd_eqb (a b : pk_dt) : bool :=
+  match a, b with (n1, g1, s1, p1, c1), (n2, g2, s2, p2, c2) =>
+    String.eqb n1 n2 && slist_eqb g1 g2 && String.eqb s1 s2 && ostr_eqb p1 p2 && Bool.eqb c1 c2
+  end.
+Definition pkr_eqb (a b : pk_ref) : bool :=
+  match a, b with (t1, c1, i1, r1), (t2, c2, i2, r2) => pkd_eqb t1 t2 && pkc_eqb c1 c2 && String.eqb i1 i2 && String.eqb r1 r2 end.
+
+(* ..., observed __reduce__ arguments, observed state of pickle.loads(pickle.dumps(x)) *)
+Definition chk_coord (c : uctx * bool * coord * jv * obs_state * pk_coord * obs_state) : bool :=
+  match c with (u, minimal, x, wire, o, pk, opk) =>
     jv_eqb (enc_coord minimal x) wire
     && match dec_coord u wire with
        | Some x' => jv_eqb (enc_coord false x') (enc_coord false (expected_coord minimal x)) && state_ok x' o
                     && state_ok (expected_coord minimal x) o
        | None => false
        end
+    && pkc_eqb (reduce_coord_deep x) pk
+    && match rebuild_coord_deep u pk with
+       | Some x' => jv_eqb (enc_coord false x') (enc_coord false x) && state_ok x' opk && state_ok x opk
+       | None => false
+       end
   end.
 
-Definition chk_dt (c : uctx * bool * dstype * jv) : bool :=
-  match c with (u, minimal, t, wire) =>
+Definition chk_dt (c : uctx * bool * dstype * jv * pk_dt) : bool :=
+  match c with (u, minimal, t, wire, pk) =>
     jv_eqb (enc_dt minimal t) wire
     && match dec_dt u wire with
        | Some t' => jv_eqb (enc_dt false t') (enc_dt false t) && slist_eqb (g_names (t_grp t')) (g_names (t_grp t))
        | None => false
        end
     && match rebuild_dt u (reduce_dt t) with Some t' => jv_eqb (enc_dt false t') (enc_dt false t) | None => false end
+    && pkd_eqb (reduce_dt_deep t) pk
+    && match rebuild_dt_deep u pk with Some t' => jv_eqb (enc_dt false t') (enc_dt false t) | None => false end
   end.
 
 (* additionally the run of the ref that came back (not part of __eq__) *)
-Definition chk_ref (c : uctx * bool * dref * jv * obs_state * string) : bool :=
-  match c with (u, minimal, r, wire, o, run) =>
+Definition chk_ref (c : uctx * bool * dref * jv * obs_state * string * pk_ref * obs_state) : bool :=
+  match c with (u, minimal, r, wire, o, run, pk, opk) =>
     jv_eqb (enc_ref minimal r) wire
     && match dec_ref u wire with
        | Some r' =>
            let e := if minimal then r else expected_ref r in
            jv_eqb (enc_ref false r') (enc_ref false e) && state_ok (f_coord r') o && String.eqb (f_run r') run
        | None => false
+       end
+    && pkr_eqb (reduce_ref_deep r) pk
+    && match rebuild_ref_deep u pk with
+       | Some r' => jv_eqb (enc_ref false r') (enc_ref false r) && state_ok (f_coord r') opk && String.eqb (f_run r') (f_run r)
+       | None => false
+       end
+    (* a component ref: the registry of the case holds makeCompositeRef() of it *)
+    && match component_of (t_name (f_type r)) with
+       | None => true
+       | Some _ => match composite_ref u r, aget (f_id r) (u_refs u) with
+                   | Some p, Some p' => jv_eqb (enc_ref false p) (enc_ref false p') && String.eqb (f_run p) (f_run p')
+                   | _, _ => false
+                   end
        end
   end.
 
